@@ -10,12 +10,12 @@ use rs_opw_kinematics::parameters::opw_kinematics::Parameters;
 use rs_opw_kinematics::rrt::RRTPlanner;
 use nalgebra::{Isometry3, Translation3};
 
-pub struct Scn { pub start: Joints, pub dx: f64, pub dz: f64, pub nsteps: usize, pub obstacle: bool, pub include_interp: bool, pub step_m: f64, pub cost_deg: f64, pub depth: usize, pub coef: f64 }
+pub struct Scn { pub start: Joints, pub dx: f64, pub dz: f64, pub nsteps: usize, pub obstacle: bool, pub include_interp: bool, pub step_m: f64, pub cost_deg: f64, pub depth: usize, pub coef: f64, pub turn: f64 }
 impl Scn {
-    fn to_json(&self) -> String { format!("{{\"start\": {}, \"dx\": {:?}, \"dz\": {:?}, \"nsteps\": {}, \"obstacle\": {}, \"include_interp\": {}, \"step_m\": {:?}, \"cost_deg\": {:?}, \"depth\": {}, \"coef\": {:?}}}",
-        json::nums(&self.start), self.dx, self.dz, self.nsteps, self.obstacle, self.include_interp, self.step_m, self.cost_deg, self.depth, self.coef) }
+    fn to_json(&self) -> String { format!("{{\"start\": {}, \"dx\": {:?}, \"dz\": {:?}, \"nsteps\": {}, \"obstacle\": {}, \"include_interp\": {}, \"step_m\": {:?}, \"cost_deg\": {:?}, \"depth\": {}, \"coef\": {:?}, \"turn\": {:?}}}",
+        json::nums(&self.start), self.dx, self.dz, self.nsteps, self.obstacle, self.include_interp, self.step_m, self.cost_deg, self.depth, self.coef, self.turn) }
     fn from_json(o: &str) -> Option<Scn> { let s = json::get_nums(o, "start"); Some(Scn { start: [s[0], s[1], s[2], s[3], s[4], s[5]], dx: json::get_num(o, "dx")?, dz: json::get_num(o, "dz")?, nsteps: json::get_num(o, "nsteps")? as usize,
-        obstacle: o.contains("\"obstacle\": true"), include_interp: o.contains("\"include_interp\": true"), step_m: json::get_num(o, "step_m")?, cost_deg: json::get_num(o, "cost_deg")?, depth: json::get_num(o, "depth")? as usize, coef: json::get_num(o, "coef").unwrap_or(1.0) }) }
+        obstacle: o.contains("\"obstacle\": true"), include_interp: o.contains("\"include_interp\": true"), step_m: json::get_num(o, "step_m")?, cost_deg: json::get_num(o, "cost_deg")?, depth: json::get_num(o, "depth")? as usize, coef: json::get_num(o, "coef").unwrap_or(1.0), turn: json::get_num(o, "turn").unwrap_or(0.0) }) }
 }
 pub fn robot(obstacle_at: Option<[f32; 3]>) -> KinematicsWithShape { robot_m(obstacle_at, 0.0) }
 /// the same robot with a safety margin to the environment (0 = touch only)
@@ -31,8 +31,10 @@ pub fn check(s: &Scn) -> Option<(String, String)> {
     let free = robot(None);
     let land = free.forward(&s.start);
     let mut steps: Vec<Pose> = vec![];
-    for k in 1..=s.nsteps { let f = k as f64 / (s.nsteps as f64 + 1.0); steps.push(Isometry3::from_parts(Translation3::new(land.translation.x + s.dx * f, land.translation.y, land.translation.z + s.dz * f), land.rotation)); }
-    let park = Isometry3::from_parts(Translation3::new(land.translation.x + s.dx, land.translation.y, land.translation.z + s.dz), land.rotation);
+    // the tool turns about its own axis by `turn` radians along the stroke (0 = pure translation)
+    let rot = |f: f64| land.rotation * nalgebra::UnitQuaternion::from_axis_angle(&nalgebra::Vector3::z_axis(), s.turn * f);
+    for k in 1..=s.nsteps { let f = k as f64 / (s.nsteps as f64 + 1.0); steps.push(Isometry3::from_parts(Translation3::new(land.translation.x + s.dx * f, land.translation.y, land.translation.z + s.dz * f), rot(f))); }
+    let park = Isometry3::from_parts(Translation3::new(land.translation.x + s.dx, land.translation.y, land.translation.z + s.dz), rot(1.0));
     // obstacle: a box around the flange position half way along the stroke (the tool / link 6 must pass through it)
     let mid = Isometry3::from_parts(Translation3::new(land.translation.x + s.dx * 0.5, land.translation.y, land.translation.z + s.dz * 0.5), land.rotation);
     let flange = mid * Isometry3::translation(0.0, 0.0, -0.06);
@@ -79,6 +81,7 @@ pub fn check(s: &Scn) -> Option<(String, String)> {
         let detour = |f: PathFlags| f.contains(PathFlags::ONBOARDING) || f.contains(PathFlags::ALTERED);
         let cart = !detour(w.flags) && (n == 0 || !detour(path[n - 1].flags));
         if n > 0 && cart && off > 1e-5 { return Some((format!("waypoint {} lies {:e} m off the straight stroke", n, off), "on the segment".into())); }
+        if n > 0 && cart && (t < -1e-5 || t > 1.0 + 1e-5) { return Some((format!("waypoint {} lies on the line but outside the stroke segment (parameter {:.4})", n, t), "between the poses it interpolates".into())); }
         if s.include_interp && n > 0 && cart { let c: f64 = (0..6).map(|i| (path[n - 1].joints[i] - w.joints[i]).abs() * DEFAULT_TRANSITION_COSTS[i] * s.coef).sum(); /* independent of utils::transition_costs */ if c > s.cost_deg.to_radians() + 1e-9 { return Some((format!("transition {} -> {} costs {:.3} deg", n - 1, n, c.to_degrees()), format!("<= {} deg", s.cost_deg))); } }
     }
     None
@@ -88,7 +91,7 @@ pub fn search(seed: u64, budget: usize) -> Option<Found> {
     for round in 0..budget {
         let start = [rng.range(-0.5, 0.5), rng.range(0.2, 0.6), rng.range(-0.3, 0.3), rng.range(-0.4, 0.4), rng.range(0.6, 1.2), rng.range(-0.5, 0.5)];
         let s = Scn { start, dx: rng.range(0.05, 0.2), dz: rng.range(-0.15, 0.15), nsteps: rng.below(3), obstacle: round % 3 == 1, include_interp: round % 2 == 0,
-                      step_m: [0.01, 0.05, 0.1][rng.below(3)], cost_deg: [2.0, 4.0][rng.below(2)], depth: [4usize, 8][rng.below(2)], coef: [1.0, 1.0, 3.0, 0.5][rng.below(4)] };
+                      step_m: [0.01, 0.05, 0.1][rng.below(3)], cost_deg: [2.0, 4.0][rng.below(2)], depth: [4usize, 8][rng.below(2)], coef: [1.0, 1.0, 3.0, 0.5][rng.below(4)], turn: [0.0, 0.0, 0.6, -1.0][rng.below(4)] };
         // every fourth round: a cost limit so tight that the bisection gives up and the gaps are closed by RRT detours
         let s = if round % 4 == 3 { Scn { step_m: 0.04, cost_deg: 0.5, depth: 2, obstacle: false, ..s } } else { s };
         if let Some((o, e)) = check(&s) { return Some(Found { kind: "c12".into(), case: s.to_json(), observed: o, expected: e }); }
